@@ -702,6 +702,27 @@ def odd_label_cases(ctx, r):
                              repro=f'import numpy as np\nfrom dimod.variables import Variables\nv = Variables({start!r}); s = v.__reduce__()[2][:3]\ntry:\n    v._append({rp(bad) if is_np(bad) else "float(" + repr(str(bad)) + ")"})\n    raise AssertionError("accepted")\nexcept (ValueError, OverflowError): pass\nassert v.__reduce__()[2][:3] == s')
                     return
     ctx.tick('nan/inf refused')
+    # unhashable objects: never a label (count 0, `in` False, index / _remove ValueError, _append TypeError, _relabel to one ValueError), nothing changes
+    for bad in ([1], {1}, {'a': 1}, ([1],)):
+        for start in ([], [0, 1], ['a', 5, 0]):
+            v = Variables(start); before = v.__reduce__()[2][:3]
+            facts = []
+            for name, call, want in (('count', lambda: v.count(bad), 0), ('in', lambda: bad in v, False), ('index', lambda: v.index(bad), 'ValueError'),
+                                     ('_remove', lambda: v._remove(bad), 'ValueError'), ('_append', lambda: v._append(bad), 'TypeError'),
+                                     ('_append(permissive)', lambda: v._append(bad, permissive=True), 'TypeError'),
+                                     ('_relabel(value)', lambda: v._relabel({(start or [0])[0]: bad}), 'ValueError' if start else None)):
+                try:
+                    got = call()
+                except Exception as e:  # noqa
+                    got = type(e).__name__
+                facts.append((name, got, want, v.__reduce__()[2][:3] == before))
+            ctx.case(('unhashable', repr(bad), repr(start)), nontrivial=True)
+            wrong = [f for f in facts if f[1] != f[2] or not f[3]]
+            if wrong:
+                ctx.fail('property', 'Variables.objects', 'unhashable object', f'Variables({start!r}) with {bad!r}: (call, outcome, expected, state unchanged) = {wrong}',
+                         repro=f'from dimod.variables import Variables\nv = Variables({start!r}); s = v.__reduce__()[2][:3]\nassert v.count({bad!r}) == 0 and ({bad!r} in v) is False\ntry:\n    v._append({bad!r})\n    raise AssertionError("accepted")\nexcept TypeError: pass\nassert v.__reduce__()[2][:3] == s')
+                return
+    ctx.tick('unhashable refused')
 
 
 # ---------------------------------------------------------------- round 7: which methods of the class the generators really call
